@@ -146,6 +146,20 @@ struct Sim {
         return std::nullopt;
     }
 
+    // the earliest wallet send / receive that can still be double-spent within a reorg of depth <= 3
+    std::optional<Txid> Victim(const RefView& v, const std::vector<Txid>& list, bool mempool_only)
+    {
+        for (auto& id : list) {
+            auto s = v.status.find(id);
+            if (s == v.status.end()) continue;
+            if (s->second == St::MEMPOOL) return id;
+            if (mempool_only) continue;
+            if (s->second == St::INACTIVE) return id;
+            if (s->second == St::CONF && v.chain->tip_height - v.chain->conf_height.at(id) + 1 <= 3) return id;
+        }
+        return std::nullopt;
+    }
+
     // ---------------------------------------------------------------------------------------- events
     std::vector<std::string> Events()
     {
@@ -161,9 +175,9 @@ struct Sim {
         if (!v.pool.empty()) add("M");
         add("ME");
         if (n_cbw < 2) add("CBW");
-        if (Latest(v, sends, {St::CONF, St::MEMPOOL, St::INACTIVE})) add("DS");
-        if (Latest(v, sends, {St::MEMPOOL})) add("DM");
-        if (Latest(v, recvs, {St::CONF, St::MEMPOOL})) add("DR");
+        if (Victim(v, sends, false)) add("DS");
+        if (Victim(v, sends, true)) add("DM");
+        if (Victim(v, recvs, false)) add("DR");
         add("RO1"); add("RO2"); add("RO3");
         if (SideHead()) add("RX");
         return ev;
@@ -171,27 +185,45 @@ struct Sim {
 
     // conflicting block for a transaction that is confirmed in block B of the active chain: same parent, the
     // double spend first, then B's other transactions that do not depend on the victim
-    void ConfirmConflict(const Txid& victim, const CTransactionRef& dbl)
+    void ConfirmConflict(const RefView& v, const Txid& victim, const CTransactionRef& dbl)
     {
         uint256 B = BlockOf(victim);
         if (B.IsNull()) {
-            // victim unconfirmed: the double spend is simply mined on the tip, together with nothing else
-            w.MineTip({dbl});
+            // victim unconfirmed: the double spend is mined on the tip together with its own unconfirmed ancestors
+            std::vector<CTransactionRef> txs;
+            std::set<Txid> have;
+            std::function<void(const CTransaction&)> need = [&](const CTransaction& t) {
+                for (auto& in : t.vin) {
+                    auto k = w.known.find(in.prevout.hash);
+                    if (k == w.known.end() || have.count(in.prevout.hash)) continue;
+                    St s = v.status.at(in.prevout.hash);
+                    if (s == St::CONF) continue;
+                    need(*k->second.tx);
+                    have.insert(in.prevout.hash);
+                    txs.push_back(k->second.tx);
+                }
+            };
+            need(*dbl);
+            txs.push_back(dbl);
+            if (!w.L.Fees(n.tip()->GetBlockHash(), txs)) return; // not minable (an ancestor is itself conflicted): no-op
+            w.MineTip(txs);
             n_blocks++;
             return;
         }
+        // victim confirmed in block B: sibling block with the double spend in the victim's place and without the victim's dependants
         const CBlock& blk = w.L.blocks.at(B).block;
         std::set<Txid> dropped{victim};
-        std::vector<CTransactionRef> txs{dbl};
+        std::vector<CTransactionRef> txs;
         for (size_t i = 1; i < blk.vtx.size(); i++) {
             const auto& tx = blk.vtx[i];
-            bool dep = dropped.count(tx->GetHash()) > 0;
+            if (tx->GetHash() == victim) { txs.push_back(dbl); continue; }
+            bool dep = false;
             for (auto& in : tx->vin) if (dropped.count(in.prevout.hash)) dep = true;
             if (dep) { dropped.insert(tx->GetHash()); continue; }
             txs.push_back(tx);
         }
         uint256 parent = w.L.blocks.at(B).prev;
-        if (!w.L.Fees(parent, txs)) return; // the double spend is not valid on that parent (its inputs were created in B): no-op
+        if (!w.L.Fees(parent, txs)) return; // not valid on that parent: no-op
         uint256 X = w.Mine(parent, txs);
         n_blocks++;
         ExtendUntilActive(X);
@@ -284,7 +316,7 @@ struct Sim {
             n_cbw++;
             n_blocks++;
         } else if (e == "DS" || e == "DM") {
-            Txid id = e == "DS" ? *Latest(v, sends, {St::CONF, St::MEMPOOL, St::INACTIVE}) : *Latest(v, sends, {St::MEMPOOL});
+            Txid id = *Victim(v, sends, e == "DM");
             const CTransaction& t = *w.known.at(id).tx;
             CMutableTransaction m;
             m.version = 2;
@@ -297,17 +329,17 @@ struct Sim {
             m.vout.emplace_back(total - 40000, ck::OpTrueSpk());
             if (!w.wn->Sign(m)) throw std::logic_error("wallet could not sign the double spend");
             auto dbl = MakeTransactionRef(m);
-            if (e == "DS") ConfirmConflict(id, dbl);
+            if (e == "DS") ConfirmConflict(v, id, dbl);
             else {
                 auto r = w.Submit(dbl);
                 if (r.m_result_type != MempoolAcceptResult::ResultType::VALID) throw std::logic_error("replacement rejected: " + r.m_state.ToString());
             }
         } else if (e == "DR") {
-            Txid id = *Latest(v, recvs, {St::CONF, St::MEMPOOL});
+            Txid id = *Victim(v, recvs, false);
             const CTransaction& t = *w.known.at(id).tx;
             // the payer double-spends: same coin, nothing for the wallet
             auto dbl = World::Pay({t.vin[0].prevout, recv_funding.at(id), 0}, {}, 50000);
-            ConfirmConflict(id, dbl);
+            ConfirmConflict(v, id, dbl);
         } else if (e == "RO1" || e == "RO2" || e == "RO3") {
             int k = e[2] - '0';
             uint256 fork = Ancestor(tip_before, k);
@@ -417,7 +449,13 @@ int main(int argc, char** argv)
     ck::Node node(wn::DeferredOpts());
     Sim sim(node);
     sim.Init();
-    if (getenv("C44_TIMING")) fprintf(stderr, "[timing] init done at %.2fs\n", vx::elapsed());
+    if (getenv("C44_TIMING")) {
+        fprintf(stderr, "[timing] init done at %.2fs\n", vx::elapsed());
+        double t0 = vx::elapsed(), c0 = cpu_now();
+        for (int i = 0; i < 20; i++) { pid_t p = fork(); if (p == 0) _exit(0); int st; waitpid(p, &st, 0); }
+        fprintf(stderr, "[timing] 20 x fork+exit: wall %.3f parent-cpu %.3f\n", vx::elapsed() - t0, cpu_now() - c0);
+        std::ifstream st("/proc/self/status"); std::string l; while (std::getline(st, l)) if (l.rfind("VmRSS", 0) == 0 || l.rfind("VmSize", 0) == 0 || l.rfind("VmPTE", 0) == 0) fprintf(stderr, "[timing] %s\n", l.c_str());
+    }
     if (ck::ThreadCount() != 1) { printf("HARNESS-ERROR process is not single-threaded (%d threads): fork exploration would be unsound\n", ck::ThreadCount()); return 2; }
 
     const std::vector<std::string> full{"RB", "RM", "S", "SU", "AB", "RS", "M", "ME", "CBW", "DS", "DM", "DR", "RO1", "RO2", "RO3", "RX"};
@@ -452,16 +490,57 @@ int main(int argc, char** argv)
         return sim.fs.sh->violations.load() ? 1 : 0;
     }
 
-    sim.fs.max_depth = depth;
+    // iterative deepening: every bound is explored completely before the next one starts; a deadline cuts the
+    // current bound only, the last completed bound is what the evidence reports.
     sim.fs.split_depth = 1;
     sim.fs.events = [&] { return sim.Events(); };
     sim.fs.apply = [&](const std::string& e) { sim.Apply(e); };
     sim.fs.key = [&] { return sim.Key(); };
     sim.fs.on_worker_start = [&](unsigned wk) { node.RepointBlocksDir(node.BlocksDir().parent_path() / ("w" + std::to_string(wk))); };
-    sim.fs.run();
-    if (getenv("C44_TIMING")) fprintf(stderr, "[timing] run done at %.2fs\n", vx::elapsed());
-
-    auto& oc = sim.fs.sh->outcome_classes;
+    struct Plan { int depth; std::vector<std::string> alphabet; };
+    std::vector<Plan> plans;
+    const std::vector<std::string> chosen = sim.alphabet;
+    for (int d = std::min(2, depth); d <= std::min(depth, big ? 5 : 4); d++) plans.push_back({d, chosen});
+    // thorough: depth 6 over the events that create, conflict and restore wallet transactions
+    if (big && depth >= 6 && chosen == full) plans.push_back({6, {"RM", "S", "M", "AB", "DS", "DM", "RO1", "RX"}});
+    uint64_t done_states = 0, done_trans = 0, oc_done[16] = {0};
+    int done_depth = 0;
+    std::string done_alphabet;
+    bool harness_error = false;
+    for (auto& pl : plans) {
+        if (vx::deadline_reached()) { E.exhaustive = false; break; }
+        sim.alphabet = pl.alphabet;
+        sim.fs.max_depth = pl.depth;
+        E.states = 0; E.transitions = 0; E.traces_validated = 0;
+        sim.fs.run();
+        if (getenv("C44_TIMING")) fprintf(stderr, "[timing] bound %d done at %.2fs: states=%llu transitions=%llu\n", pl.depth, vx::elapsed(), (unsigned long long)E.states.load(), (unsigned long long)E.transitions.load());
+        if (sim.fs.sh->outcome_classes[O_HARNESS_ERROR].load()) harness_error = true;
+        if (sim.fs.sh->deadline_hit.load() || vx::rep().violations || harness_error) {
+            // partial bound: counted on top of the completed ones (they are real transitions), but not "completed"
+            if (!done_depth) { done_states = E.states; done_trans = E.transitions; }
+            break;
+        }
+        if (pl.depth == 6) {
+            // a separate exploration over a sub-alphabet: add to the depth-5 numbers
+            done_states += E.states; done_trans += E.transitions;
+            for (int i = 0; i < 16; i++) oc_done[i] += sim.fs.sh->outcome_classes[i].load();
+            E.set("depth6_subalphabet_states", E.states.load());
+            E.set("depth6_subalphabet_transitions", E.transitions.load());
+            std::string a6;
+            for (auto& a : pl.alphabet) a6 += a + " ";
+            E.set_str("depth6_subalphabet", a6);
+            done_depth = 6;
+        } else {
+            done_states = E.states; done_trans = E.transitions;
+            for (int i = 0; i < 16; i++) oc_done[i] = sim.fs.sh->outcome_classes[i].load();
+            done_depth = pl.depth;
+        }
+    }
+    E.states = done_states; E.transitions = done_trans; E.traces_validated = done_trans;
+    sim.alphabet = chosen;
+    const bool complete = done_depth == depth;
+    if (!complete) E.exhaustive = false;
+    uint64_t* oc = oc_done;
     std::string al;
     for (auto& a : sim.alphabet) al += a + " ";
     E.rule = "explicit-state search (fork per transition) of a real CWallet attached to the regtest node; state = canonical (tip, mempool, reference status + wallet state of every wallet tx, balances, spendable coins, side-branch blocks, per-kind counters); transition = one event applied through the real entry points (ProcessNewBlock, mempool ProcessTransaction, CommitTransaction, AbandonTransaction), after each of which GetBalance, AvailableCoins (default, include_unsafe) and TransactionCanBeAbandoned are compared with the ledger/mempool scan";
@@ -470,19 +549,20 @@ int main(int argc, char** argv)
     E.assume("wallet attached at genesis with keys born at the genesis time; default wallet options (spend zero-conf change on, avoid-reuse off)");
     E.set_str("alphabet", al);
     E.set("depth", (uint64_t)depth);
+    E.set("max_depth_completed", (uint64_t)done_depth);
     const char* names[] = {"states_with_conflicted_tx", "states_with_abandoned_tx", "states_with_untrusted_pending", "states_with_matured_wallet_coinbase", "transitions_with_reorg", "states_with_reserved_inactive_tx", "states_with_trusted_mempool_coin", "states_with_mempool_conflicted_tx", "states_with_changed_immature_balance", "transitions_restoring_a_conflicted_tx"};
-    for (int i = 0; i < 10; i++) E.set(names[i], oc[i].load());
+    for (int i = 0; i < 10; i++) E.set(names[i], oc[i]);
     E.sample("events: RB/RM receive in block/mempool, S send (commit+submit), SU send (commit only), AB abandon latest inactive, RS resubmit latest inactive/abandoned, M mine mempool, ME mine empty, CBW coinbase to wallet, DS/DR double spend of latest send/receive confirmed on a competing branch (reorg as deep as the victim), DM double spend replaces the latest send in the mempool, RO1-3 reorg to an empty branch, RX re-activate the abandoned branch");
     E.sample("example history: S | M | DS | RX  (send confirmed, double spend confirmed on a competing branch: send conflicted, inputs restored to the double spend; old branch re-activated: send confirmed again)");
-    if (oc[O_HARNESS_ERROR].load()) {
+    if (harness_error) {
         vx::write_evidence();
-        printf("HARNESS-ERROR %d events failed inside the harness (see samples in evidence)\n", (int)oc[O_HARNESS_ERROR].load());
+        printf("HARNESS-ERROR events failed inside the harness (see stderr / samples in evidence)\n");
         for (auto& s : E.samples) if (s.find("HARNESS-ERROR") != std::string::npos) printf("  %s\n", s.c_str());
         return 2;
     }
-    if (E.exhaustive && sim.alphabet == full) {
+    if (complete && depth >= 4 && sim.alphabet == full && vx::rep().violations == 0) {
         for (int i = 0; i < 10; i++)
-            if (oc[i].load() == 0) { printf("HARNESS-ERROR outcome class '%s' never occurred: vacuous exploration\n", names[i]); vx::write_evidence(); return 2; }
+            if (oc[i] == 0) { printf("HARNESS-ERROR outcome class '%s' never occurred: vacuous exploration\n", names[i]); vx::write_evidence(); return 2; }
     }
     return vx::finish();
 }
